@@ -54,11 +54,17 @@ def _strip_cast(body):
     return stmts, ret.value
 
 
-def _normalise_stat(prog, f, body=None):
+def _DTYPE_PLUMBING(st_):
+    """statements that only choose / apply the accumulator or output dtype"""
+    return (isinstance(st_, ast.If) and ("dtype is None" in dump(st_.test) or "dtype is not None" in dump(st_.test))) \
+        or (isinstance(st_, ast.Assign) and dump(st_.targets[0]) == "dtype")
+
+
+def _normalise_stat(prog, f, body=None, inline=0):
     stmts, retv = _strip_cast(body if body is not None else body_nodoc(f.node))
     if stmts is None:
         raise VNUnknown("no return")
-    vn = VN(prog, f)
+    vn = VN(prog, f) if not inline else VN(prog, f, inline=inline, skip=_DTYPE_PLUMBING)
     for st in stmts:
         if isinstance(st, ast.If) and "dtype is None" in dump(st.test):
             continue       # default accumulator selection
@@ -82,7 +88,17 @@ def check_definitions(prog, rep, K):
             rep.unrec("R1-definitions", construct, "body not straight-line arithmetic: %s" % e)
             continue
         refp = [VN(prog, f).expr(ast.parse(r, mode="eval").body) for r in refs]
-        if any(got == r for r in refp):
+        same = any(got == r for r in refp)
+        if not same:
+            # the statistic may be written through a sibling statistic (afreq = self.acount() / n): read own straight-line methods through, on both sides
+            try:
+                got2, _ = _normalise_stat(prog, f, inline=1)
+                refp2 = [VN(prog, f, inline=1, skip=_DTYPE_PLUMBING).expr(ast.parse(r, mode="eval").body) for r in refs]
+                if any(got2 == r for r in refp2):
+                    same = True
+            except VNUnknown:
+                pass
+        if same:
             rep.ok("R1-definitions", construct, "%s == %s" % (name, refs[0]), sample={"statistic": construct, "normal_form": got.show()[:200]})
         elif any(comparable(got, r) for r in refp):
             rep.violate("R1-definitions", construct, "%s normalises to %s; its definition is %s" % (name, got.show()[:160], refp[0].show()[:160]), where(f),
